@@ -27,10 +27,13 @@ check('C13',
       'symbolic per-row lengths (valid part exact, padding depends on padding); '
       'nn.RNN flags (time_major, reverse, keep_order, return_carry at ctor/call) '
       'with symbolic seq_lengths over a Python-loop scan stub: valid outputs and '
-      'final carry equal the loop over the valid prefix.',
-      'Stepwise-decode == whole-sequence, non-interference through finfo.min '
-      'saturation, Bidirectional/nnx.RNN over the real scan need real JAX and are '
-      'NOT claimed; exp/sigmoid/tanh/sqrt uninterpreted; floats as reals.',
+      'final carry equal the loop over the valid prefix; '
+      'MultiHeadDotProductAttention(decode=True) stepwise == whole sequence under a '
+      'causal mask (cache index, every step), with the float-saturation axiom '
+      'exp(finfo.min) = 0.',
+      'Bidirectional/nnx.RNN over the real scan and the NNX decode cache are NOT '
+      'claimed; exp/sigmoid/tanh/sqrt uninterpreted (exp > 0 instantiated per '
+      'application); floats as reals.',
       ENGC, 'DESIGN.md §4 C13, §9.5')
 check('C14',
       'Bounded symbolic check: Linen filter algebra (union/intersect/subtract/'
@@ -170,10 +173,13 @@ check('C13',
       'symbolic per-row lengths (valid part exact, padding depends on padding); '
       'nn.RNN flags (time_major, reverse, keep_order, return_carry at ctor/call) '
       'with symbolic seq_lengths over a Python-loop scan stub: valid outputs and '
-      'final carry equal the loop over the valid prefix.',
-      'Stepwise-decode == whole-sequence, non-interference through finfo.min '
-      'saturation, Bidirectional/nnx.RNN over the real scan need real JAX and are '
-      'NOT claimed; exp/sigmoid/tanh/sqrt uninterpreted; floats as reals.',
+      'final carry equal the loop over the valid prefix; '
+      'MultiHeadDotProductAttention(decode=True) stepwise == whole sequence under a '
+      'causal mask (cache index, every step), with the float-saturation axiom '
+      'exp(finfo.min) = 0.',
+      'Bidirectional/nnx.RNN over the real scan and the NNX decode cache are NOT '
+      'claimed; exp/sigmoid/tanh/sqrt uninterpreted (exp > 0 instantiated per '
+      'application); floats as reals.',
       ENGC, 'DESIGN.md §4 C13, §9.5')
 check('C14',
       'Bounded symbolic check: Linen filter algebra (union/intersect/subtract/'
